@@ -5,6 +5,7 @@ model computes — for every training set, every positive ridge, every tolerance
 import PybropsModel.Lemmas.SpecLinkBase
 import PybropsModel.Lemmas.RRFit
 import PybropsModel.Lemmas.RidgeEnergy
+import PybropsModel.Lemmas.RRSolveStep
 import PybropsModel.Model.RRSpec
 set_option autoImplicit false
 set_option linter.unusedSectionVars false
@@ -12,7 +13,7 @@ set_option linter.unusedSimpArgs false
 set_option linter.unusedVariables false
 
 namespace SpecLink
-open Finset BigOperators GMod RRBlup GSpec RSpec GSList GSFn
+open Finset BigOperators GMod RRBlup GSpec RSpec GSList GSFn RRSolve
 
 /-! ### `specGs` -/
 
@@ -58,11 +59,11 @@ theorem specGs_sound {n : ℕ} {A : List (List ℚ)} {b : List ℚ} (h : Square 
 
 /-! ### `specFit` -/
 
-/-- the fit as the code performs it: `rrBLUP_ML0` per trait on the polymorphic columns, with the ridge the
-    ML step chose for that trait (oracle input) -/
-def fitML0 (Y Z : List (List ℚ)) (p t : ℕ) (ridges : List ℚ) (atol : ℚ) (maxiter : ℕ) :
-    List (List ℚ) × List (List ℚ) :=
-  fitNumpy Y Z p t (fun k y Zp => (ml0 y Zp ((isPoly Z p).count true) (ridges.getD k 0) atol maxiter).2)
+/-- the fit as the (repaired) code performs it: `rrBLUP_ML0` per trait on the polymorphic columns, with the
+    ridge the ML step chose for that trait (oracle input) and the direct solver `solve` for the fallback -/
+def fitML0 (solve : List (List ℚ) → List ℚ → List ℚ) (Y Z : List (List ℚ)) (p t : ℕ) (ridges : List ℚ)
+    (atol : ℚ) (maxiter : ℕ) : List (List ℚ) × List (List ℚ) :=
+  fitNumpy Y Z p t (fun k y Zp => (ml0 solve y Zp ((isPoly Z p).count true) (ridges.getD k 0) atol maxiter).2)
 
 theorem scatter_rows (t : ℕ) (mask : List Bool) (rows : List (List ℚ)) (hr : ∀ r ∈ rows, r.length = t) :
     ∀ r ∈ scatter t mask rows, r.length = t := by
@@ -142,49 +143,107 @@ theorem col_stack (sols : List (List ℚ)) (np k : ℕ) (hk : k < sols.length) (
     rw [List.getD_eq_getElem?_getD, List.getElem?_map, List.getElem?_eq_getElem hk]
     simp [List.getD_eq_getElem?_getD, List.getElem?_eq_getElem h2]
 
-/-- a fitted trait is at least as good as the zero solution (list form, as in Props.C04) -/
-theorem psse_ml0_le (y : List ℚ) (Z : List (List ℚ)) (n p : ℕ) (hZ : Ridge.Rect Z n p)
-    (hy : y.length = n) (ridge : ℚ) (hr : 0 < ridge) (atol : ℚ) (maxiter : ℕ) :
-    ((ml0 y Z p ridge atol maxiter).2).length = p ∧
-    psse y Z ridge (ml0 y Z p ridge atol maxiter).2 ≤ psse y Z ridge (List.replicate p 0) := by
-  unfold ml0
-  obtain ⟨hl, he⟩ := gaussSeidel_energy_le_zero (Ridge.square_ztz Z p ridge (center y))
-    (Ridge.symPosDiag_ztz Z n p hZ.1 ridge hr) atol maxiter
-  have := Ridge.psse_sub_psse_zero y Z n p hZ hy ridge _ hl
-  simp only []
-  exact ⟨hl, by linarith⟩
+theorem foldl_maxv_le (l : List ℚ) (acc B : ℚ) (hacc : acc ≤ B) (hl : ∀ x ∈ l, x ≤ B) : l.foldl maxv acc ≤ B := by
+  induction l generalizing acc with
+  | nil => simpa using hacc
+  | cons x xs ih =>
+    simp only [List.foldl_cons]
+    apply ih
+    · rw [maxv_eq_max]; exact max_le hacc (hl x (by simp))
+    · exact fun y hy => hl y (by simp [hy])
 
-/-- **spec_sound (fitted model)**: on the model's own fit the oracle's clauses (shapes), (1) intercept =
-    training mean, (2) monomorphic markers zero and (3) never worse than the zero solution are all true —
-    for every training set, all positive ridges, every `gsatol`, every sweep limit; with the normal-equation
-    clause switched off (it is the subject of `normal_equations_partial` / finding D22) the verdict is `ok` -/
-theorem specFit_sound (Y Z : List (List ℚ)) (n p t : ℕ) (hZ : Ridge.Rect Z n p) (hYn : Y.length = n)
-    (ridges : List ℚ) (hr : ∀ k, k < t → 0 < ridges.getD k 0) (atol : ℚ) (maxiter : ℕ)
+/-- the reported maximum residual is bounded by any bound on the single residuals -/
+theorem residMax_le {n : ℕ} {A : List (List ℚ)} {b : List ℚ} (h : Square n A b) (u : List ℚ) (hu : u.length = n)
+    (B : ℚ) (hB : 0 ≤ B) (hres : ∀ i, i < n → |resid n (matFn A) (vecFn b) (vecFn u) i| ≤ B) :
+    residMax A b u ≤ B := by
+  unfold residMax
+  apply foldl_maxv_le _ _ _ hB
+  intro x hx
+  obtain ⟨i, hi, rfl⟩ := List.mem_iff_getElem.mp hx
+  simp only [List.length_zipWith, h.rows, h.rhs, min_self] at hi
+  have hiA : i < A.length := by rw [h.rows]; exact hi
+  have hib : i < b.length := by rw [h.rhs]; exact hi
+  simp only [List.getElem_zipWith]
+  rw [absv_eq_abs]
+  have := hres i hi
+  unfold resid at this
+  rw [dot_eq_sum (A[i]) u n (h.cols _ (List.getElem_mem hiA)) hu]
+  have e1 : vecFn b i = b[i] := by simp [vecFn, List.getD_eq_getElem?_getD, List.getElem?_eq_getElem hib]
+  have e2 : ∑ j ∈ range n, matFn A i j * vecFn u j = ∑ j ∈ range n, vecFn (A[i]) j * vecFn u j := by
+    apply Finset.sum_congr rfl; intro j _
+    simp [matFn, vecFn, List.getD_eq_getElem?_getD, List.getElem?_eq_getElem hiA]
+  rw [e1, e2] at this
+  exact this
+
+/-- a trait fitted by the repaired `rrBLUP_ML0` (list form): right length, at least as good as the zero
+    solution, and every normal-equation residual within the bound the code tests — given the solver contract -/
+theorem psse_ml0_le (solve : List (List ℚ) → List ℚ → List ℚ) (y : List ℚ) (Z : List (List ℚ)) (n p : ℕ)
+    (hZ : Ridge.Rect Z n p) (hy : y.length = n) (ridge : ℚ) (hr : 0 < ridge) (atol : ℚ) (hat : 0 ≤ atol)
+    (maxiter : ℕ) (hs : SolveOK p solve (ztzPlusRidge Z p ridge) (zty Z p (center y))) :
+    ((ml0 solve y Z p ridge atol maxiter).2).length = p ∧
+    psse y Z ridge (ml0 solve y Z p ridge atol maxiter).2 ≤ psse y Z ridge (List.replicate p 0) ∧
+    residMax (ztzPlusRidge Z p ridge) (zty Z p (center y)) (ml0 solve y Z p ridge atol maxiter).2
+      ≤ (atol + atol) * rowAbsMax (ztzPlusRidge Z p ridge) := by
+  unfold ml0
+  simp only []
+  have hsq := Ridge.square_ztz Z p ridge (center y)
+  obtain ⟨hl, he⟩ := gaussSeidel_energy_le_zero hsq
+    (Ridge.symPosDiag_ztz Z n p hZ.1 ridge hr) atol maxiter
+  have hlen := solveStep_length p solve _ _ atol _ hl hs
+  have hen : energyL p (ztzPlusRidge Z p ridge) (zty Z p (center y))
+      (solveStep solve (ztzPlusRidge Z p ridge) (zty Z p (center y)) atol
+        (gaussSeidel (ztzPlusRidge Z p ridge) (zty Z p (center y)) atol maxiter)) ≤ 0 := by
+    rcases solveStep_cases solve (ztzPlusRidge Z p ridge) (zty Z p (center y)) atol
+      (gaussSeidel (ztzPlusRidge Z p ridge) (zty Z p (center y)) atol maxiter) with h | h
+    · rw [h]; exact he
+    · rw [h]
+      exact energy_solution_le_zero Z n p hZ.1 ridge hr.le _ _ hs.2
+  refine ⟨hlen, ?_, ?_⟩
+  · have := Ridge.psse_sub_psse_zero y Z n p hZ hy ridge _ hlen
+    linarith
+  · apply residMax_le hsq _ hlen _ (mul_nonneg (by linarith) (rowAbsMax_nonneg _))
+    intro i hi
+    exact solveStep_resid hsq solve hs atol hat _ hl i hi
+
+/-- **spec_sound (fitted model, repaired code)**: on the model's own fit ALL clauses of the oracle are true —
+    shapes, (1) intercept = training mean, (2) monomorphic markers zero, (3) never worse than the zero
+    solution and (4) the penalised normal equations within the bound the code tests — for every training set,
+    all positive ridges, every `gsatol ≥ 0`, every sweep limit, given the contract of the direct solver on the
+    systems it is handed -/
+theorem specFit_sound (solve : List (List ℚ) → List ℚ → List ℚ) (Y Z : List (List ℚ)) (n p t : ℕ)
+    (hZ : Ridge.Rect Z n p) (hYn : Y.length = n)
+    (ridges : List ℚ) (hr : ∀ k, k < t → 0 < ridges.getD k 0) (atol : ℚ) (hat : 0 ≤ atol) (maxiter : ℕ)
+    (hsolve : ∀ k, k < t → SolveOK ((isPoly Z p).count true) solve
+        (ztzPlusRidge (selectCols (isPoly Z p) Z) ((isPoly Z p).count true) (ridges.getD k 0))
+        (zty (selectCols (isPoly Z p) Z) ((isPoly Z p).count true) (center (col Y k))))
     (rel abs_ reltol : ℚ) (hrel : 0 ≤ rel) (habs : 0 ≤ abs_) (checkNE : Bool) :
-    let f := fitML0 Y Z p t ridges atol maxiter
+    let f := fitML0 solve Y Z p t ridges atol maxiter
     let v := specFit rel abs_ reltol atol Y Z p t ridges f.1 f.2 checkNE
-    v.shapes = true ∧ v.intercept = true ∧ v.mono = true ∧ v.descent = true ∧
-    (checkNE = false → v.ok = true) := by
+    v.shapes = true ∧ v.intercept = true ∧ v.mono = true ∧ v.descent = true ∧ v.normalEq = true ∧
+    v.ok = true := by
   intro f v
   set mask := isPoly Z p with hmask
   set np := mask.count true with hnp
   set Zp := selectCols mask Z with hZp
   have hZpR : Ridge.Rect Zp n np := RRFit.selectCols_rect mask Z n p hZ (RRFit.isPoly_length Z p)
-  set sols : List (List ℚ) := (List.range t).map (fun k => (ml0 (col Y k) Zp np (ridges.getD k 0) atol maxiter).2)
+  set sols : List (List ℚ) := (List.range t).map (fun k => (ml0 solve (col Y k) Zp np (ridges.getD k 0) atol maxiter).2)
     with hsols
   set uhat : List (List ℚ) := (List.range np).map (fun j => sols.map (fun s => s.getD j 0)) with huhat
   have hf1 : f.1 = [(List.range t).map (fun k => mean (col Y k))] := rfl
   have hf2 : f.2 = scatter t mask uhat := rfl
   have hsl : sols.length = t := by simp [hsols]
-  have hsk : ∀ k, k < t → sols.getD k [] = (ml0 (col Y k) Zp np (ridges.getD k 0) atol maxiter).2 := by
+  have hsk : ∀ k, k < t → sols.getD k [] = (ml0 solve (col Y k) Zp np (ridges.getD k 0) atol maxiter).2 := by
     intro k hk
     simp [hsols, List.getD_eq_getElem?_getD, List.getElem?_map, List.getElem?_range hk]
   have hcolY : ∀ k, (col Y k).length = n := by intro k; simp [col, hYn]
   have hfit : ∀ k, k < t →
-      ((ml0 (col Y k) Zp np (ridges.getD k 0) atol maxiter).2).length = np ∧
-      psse (col Y k) Zp (ridges.getD k 0) (ml0 (col Y k) Zp np (ridges.getD k 0) atol maxiter).2
-        ≤ psse (col Y k) Zp (ridges.getD k 0) (List.replicate np 0) :=
-    fun k hk => psse_ml0_le (col Y k) Zp n np hZpR (hcolY k) _ (hr k hk) atol maxiter
+      ((ml0 solve (col Y k) Zp np (ridges.getD k 0) atol maxiter).2).length = np ∧
+      psse (col Y k) Zp (ridges.getD k 0) (ml0 solve (col Y k) Zp np (ridges.getD k 0) atol maxiter).2
+        ≤ psse (col Y k) Zp (ridges.getD k 0) (List.replicate np 0) ∧
+      residMax (ztzPlusRidge Zp np (ridges.getD k 0)) (zty Zp np (center (col Y k)))
+          (ml0 solve (col Y k) Zp np (ridges.getD k 0) atol maxiter).2
+        ≤ (atol + atol) * rowAbsMax (ztzPlusRidge Zp np (ridges.getD k 0)) :=
+    fun k hk => psse_ml0_le solve (col Y k) Zp n np hZpR (hcolY k) _ (hr k hk) atol hat maxiter (hsolve k hk)
   have huhat_rows : ∀ r ∈ uhat, r.length = t := by
     intro r hr'
     simp only [huhat, List.mem_map, List.mem_range] at hr'
@@ -223,7 +282,7 @@ theorem specFit_sound (Y Z : List (List ℚ)) (n p t : ℕ) (hZ : Ridge.Rect Z n
     intro c hc
     obtain ⟨k, hk, rfl⟩ := List.mem_map.mp hc
     have hk' : k < t := List.mem_range.mp hk
-    have hu : Np.compress mask (colQ f.2 k) = (ml0 (col Y k) Zp np (ridges.getD k 0) atol maxiter).2 := by
+    have hu : Np.compress mask (colQ f.2 k) = (ml0 solve (col Y k) Zp np (ridges.getD k 0) atol maxiter).2 := by
       rw [hf2]
       show Np.compress mask (col (scatter t mask uhat) k) = _
       rw [compress_scatter_col t mask uhat k huhat_len, huhat,
@@ -231,22 +290,41 @@ theorem specFit_sound (Y Z : List (List ℚ)) (n p t : ℕ) (hZ : Ridge.Rect Z n
     unfold traitClauses
     simp only [decide_eq_true_eq]
     rw [hu]
-    have hz : ((ml0 (col Y k) Zp np (ridges.getD k 0) atol maxiter).2).map (fun _ => (0:ℚ)) = List.replicate np 0 := by
+    have hz : ((ml0 solve (col Y k) Zp np (ridges.getD k 0) atol maxiter).2).map (fun _ => (0:ℚ)) = List.replicate np 0 := by
       rw [List.map_const', (hfit k hk').1]
     rw [hz]
-    have h1 := (hfit k hk').2
+    have h1 := (hfit k hk').2.1
     have h2 : 0 ≤ rel * (1 + absQ (psse (colQ Y k) Zp (ridges.getD k 0) (List.replicate np 0))) := by
       apply mul_nonneg hrel
       rw [absQ_eq]; positivity
     show psse (col Y k) Zp _ _ ≤ psse (col Y k) Zp _ _ + _
     linarith
-  refine ⟨hshape, hint, hmono, hdesc, ?_⟩
-  intro hne
-  have hc4 : v.normalEq = true := by
-    show (!(checkNE && decide (np < Z.length)) || _) = true
-    rw [hne]; simp
+  -- normal equations
+  have hne : v.normalEq = true := by
+    show (!(checkNE && decide (np < Z.length)) ||
+      ((List.range t).map (fun k =>
+        traitClauses rel reltol atol Zp np (colQ Y k) (ridges.getD k 0) (Np.compress mask (colQ f.2 k)))).all (·.2.1)) = true
+    rw [Bool.or_eq_true]
+    right
+    rw [List.all_eq_true]
+    intro c hc
+    obtain ⟨k, hk, rfl⟩ := List.mem_map.mp hc
+    have hk' : k < t := List.mem_range.mp hk
+    have hu : Np.compress mask (colQ f.2 k) = (ml0 solve (col Y k) Zp np (ridges.getD k 0) atol maxiter).2 := by
+      rw [hf2]
+      show Np.compress mask (col (scatter t mask uhat) k) = _
+      rw [compress_scatter_col t mask uhat k huhat_len, huhat,
+          col_stack sols np k (by rw [hsl]; exact hk') (by rw [hsk k hk']; exact (hfit k hk').1), hsk k hk']
+    unfold traitClauses
+    simp only [decide_eq_true_eq]
+    rw [hu]
+    have h3 := (hfit k hk').2.2
+    have hm : ∀ a b : ℚ, b ≤ maxQ a b := by
+      intro a b; unfold maxQ; split <;> [exact le_refl _; exact not_lt.mp ‹_›]
+    exact h3.trans (hm _ _)
+  refine ⟨hshape, hint, hmono, hdesc, hne, ?_⟩
   unfold FitVerdict.ok
-  rw [hshape, hint, hmono, hdesc, hc4]
+  rw [hshape, hint, hmono, hdesc, hne]
   rfl
 
 end SpecLink
